@@ -33,7 +33,7 @@ try:
     known = json.load(open(os.path.join(VERIF, "known_findings.json")))["findings"]
     n = 0
     for cfg in configs:
-        rc, o = run([os.path.join(VERIF, "bin", "fsverif"), "-property", "all", "-child", "-config", cfg, "-repo", dst])
+        rc, o = run([os.environ.get("SELFTEST_BIN", os.path.join(VERIF, "bin", "fsverif")), "-property", "all", "-child", "-config", cfg, "-repo", dst])
         if rc or "{" not in o:
             print(f"[{cfg}] checker failed (a patch that breaks another platform's build is not a valid benign patch)", o[-500:]); n += 1; continue
         reps = json.loads(o[o.index("{"):])
